@@ -63,7 +63,9 @@ def go_sequence(rng):
     for i in range(n):
         classes = ["ident", "number", "string", "operator", "comment", "odd"]
         cl = rng.choice(classes)
-        if cl == "comment" and (force_plain_next or (semi and b"\n" not in last_sep)):
+        if force_plain_next:
+            cl = rng.choice(["ident", "number", "string"])     # a token that sets insertSemi itself
+        if cl == "comment" and semi and b"\n" not in last_sep:
             cl = "ident"
         if cl == "ident":
             lx = rng.choice(sc.IDENTS)
@@ -82,8 +84,8 @@ def go_sequence(rng):
         # adjacency hazards when the separator before was empty
         if last_sep == b"" and out:
             glue = False
-            if prev_cls == "number" and (lx[:1].isalnum() or lx[:1] in (b"_", b".") or lx[0] >= 0x80):
-                glue = True
+            if prev_cls in ("number", "ident") and (lx[:1].isalnum() or lx[:1] in (b"_", b".") or lx[0] >= 0x80):
+                glue = True      # would merge into one identifier / number / number+unit
             if prev_cls in ("ident", "number", "odd") and lx[:1] == b'"':
                 glue = True
             if prev[-1:] in (b"-", b"<", b"=") and lx[:1] == b">":
@@ -92,8 +94,8 @@ def go_sequence(rng):
                 glue = True
             if prev[-1:] == b"/" and lx[:1] in (b"/", b"*"):
                 glue = True
-            if prev[-1:] == b"!" and lx[:1] != b"=":
-                pass
+            if prev_cls == "number" and prev[-1:] in b"eEpP" and lx[:1] in (b"+", b"-"):
+                glue = True      # the sign would be taken into the exponent
             if glue:
                 out += b" "
         out += lx
